@@ -62,6 +62,51 @@ def visible_terms(p, in_adj=False, out=None):
     return out
 
 
+def visible_helps(p, out=None):
+    """(term, help text) of every leaf of this command level not under hide() whose help is a plain string."""
+    if out is None:
+        out = []
+    k = p["k"]
+    if k in ("flag", "arg", "pos", "cmd"):
+        t = term_of(p)
+        h = p["n"]["help"] if k in ("flag", "arg") else p["help"]
+        if t is not None and isinstance(h, str) and h:
+            out.append((t, h))
+    elif k in ("con", "adj"):
+        for f in p["fields"]:
+            visible_helps(f, out)
+    elif k == "alt":
+        for f in p["alts"]:
+            visible_helps(f, out)
+    elif k == "hide":
+        pass
+    elif k in TRANSPARENT:
+        visible_helps(p["p"], out)
+    return out
+
+
+def doc_text(docsexp):
+    toks = re.findall(r"\((t|s|e) (\w+)(?: (x[0-9a-f]*))?\)", docsexp)
+    return "".join(gen.unhx(b).decode("utf-8", "replace") for kind, a, b in toks if kind == "t")
+
+
+def add_twins(rng, opts, names):
+    """Two valued arguments with the same names and metavariable but different help texts, in two alternatives (`--import
+    -f FILE` reads, `--export -f FILE` overwrites): both entries belong in the help of that level."""
+    levels = [opts] + [x["options"] for x in gen.walk(opts["p"]) if x["k"] == "cmd"]
+    o = rng.choice(levels)
+    if o["p"]["k"] != "con":
+        return False
+    sh, lo = names.short(), names.long()
+    mk = lambda h: gen.arg(gen.named([sh], [lo], [], h), "FILE", "string")
+    a = gen.con(gen.req_flag(names.named(help_p=0.0)), mk("File to read the data from"))
+    b = gen.con(gen.req_flag(names.named(help_p=0.0)), mk("File that will be overwritten with the result"))
+    o["p"]["fields"].insert(rng.randrange(len(o["p"]["fields"]) + 1) if all(f["k"] not in ("pos", "cmd", "anyp") and not
+                            common.has_kind(f, ("pos", "cmd", "anyp")) for f in o["p"]["fields"]) else 0,
+                            gen.wrap("optional", gen.alt(a, b), catch=False))
+    return True
+
+
 def doc_terms(docsexp):
     """Text of every (s itemterm)..(e itemterm) span, and the top-level block texts, from the token dump."""
     toks = re.findall(r"\((t|s|e) (\w+)(?: (x[0-9a-f]*))?\)", docsexp)
@@ -145,6 +190,8 @@ class C12(Property):
             opts, names = gen.gen_options(rng, features=rng.choice([("alt", "cmd", "pos"), ("alt", "adj", "cmd", "pos")]),
                                           env_p=0.2, allow_catch=False)
             regroup(rng, opts, names)
+            if rng.random() < 0.25:
+                add_twins(rng, opts, names)
             if rng.random() < 0.5:
                 opts["header"] = "HEADERTEXT here"
                 opts["footer"] = "FOOTERTEXT here"
@@ -251,6 +298,12 @@ class C12(Property):
                     continue          # inside an adjacent block an item without help is shown in the block's usage line only
                 if t not in shown:
                     out.append(Finding("violation", c, "the visible item %r is missing from the help of this level (shown: %r)" % (t, shown)))
+                    break
+            text = doc_text(ic[3])
+            for t, h in visible_helps(o["p"]):
+                if h not in text:
+                    out.append(Finding("violation", c, "the help text %r of the visible item %r is missing from the help of this level"
+                                       % (h, t)))
                     break
             for t in shown:
                 if t not in expected and t not in extra:
